@@ -110,13 +110,20 @@ def run_fragment(body: Sequence[ast.stmt], names: Dict[str, Any], attrs: Optiona
                 grp.add(target.id)
                 shared[target.id] = grp
 
-    def refuse_shared(name: str) -> None:
-        grp = shared.get(name)
-        if grp and len(grp) > 1:
-            raise Unfoldable(f"store into `{name}`, which shares its storage with {sorted(grp - {name})} (aliasing is not modelled)")
-
     #: why a name is unbound: the statement whose value the evaluator could not follow, and the reason
     why: Dict[str, str] = {}
+
+    def refuse_shared(name: str) -> None:
+        """A store through `name` is about to be made.  The evaluator's values are copies, so every OTHER name that shares
+        storage with it would keep a stale value: those names are forgotten (a later read of one of them is refused with
+        this reason; if they are re-bound first, nothing is lost).  Values are never wrong, only unknown."""
+        grp = shared.get(name)
+        if grp and len(grp) > 1:
+            for other in sorted(grp - {name}):
+                env.pop(other, None)
+                why[other] = f"`{other}` shares its storage with `{name}`, which was stored into (aliasing is not modelled)"
+                shared.pop(other, None)
+            grp.intersection_update({name})
 
     def fold(e):
         f = Folder(env, attrs)
